@@ -154,7 +154,57 @@ def reusable(st):
         return all(reusable(b) for b in st["brs"])
     if t in ("seqbr", "runifs"):
         return all(reusable(b) for b in st["body"])
+    if t == "hosted":
+        return reusable(st["el"])
     return False
+
+
+def kind_name(st):
+    """Name of a stage in violation keys."""
+    if st["t"] == "bad":
+        return "bad:" + st["k"]
+    if st["t"] == "hosted":
+        return "%s-as-%s" % (kind_name(st["el"]), st["h"])
+    if st["t"] == "split" and not st.get("cb", True):
+        return "split-nocopy"
+    if st["t"] == "nodata" and st.get("k"):
+        return "nodata-" + st["k"]
+    return st["t"]
+
+
+# ---- spec/FlowSem.tla Hosted(h, el): the element el as an object whose class is also something else
+_Params = __import__("collections").namedtuple("Params", ["scale", "shift"])
+_Funcs = __import__("collections").namedtuple("Funcs", ["neg", "pos"])
+
+
+class EqAll(object):
+    """compares equal to every object"""
+
+    def __eq__(self, other):
+        return True
+
+    def __ne__(self, other):
+        return False
+    __hash__ = object.__hash__
+
+
+def host(el, h):
+    """The real element *el* (has run / is callable / has fill and compute) presented by an object of a class
+    derived from a named tuple ("nt": fields are numbers, "ntf": fields are other callables), a list (holding
+    another callable), a dict (empty: the object is false) or a class whose instances equal everything.
+    Only the element interface of *el* is forwarded, as adapters.Run looks for it: run, else __call__,
+    else fill + compute."""
+    other = _map_callable("dbl")
+    base, args = {"nt": (_Params, (2, 1)), "ntf": (_Funcs, (other, other)), "list": (list, ([other],)),
+                  "dict": (dict, ()), "eq": (EqAll, ())}[h]
+    if callable(getattr(el, "run", None)):
+        methods = {"run": lambda self, flow: el.run(flow)}
+    elif callable(el):
+        methods = {"__call__": lambda self, value: el(value)}
+    else:
+        methods = {"fill": lambda self, value: el.fill(value), "compute": lambda self: el.compute()}
+    methods["__doc__"] = "element hosted by a %s subclass" % base.__name__
+    return type("Hosted_" + h, (base,), methods)(*args)
 
 
 class Last(object):
@@ -326,7 +376,13 @@ def build_stage(st, pairs=True, use_context_el=False):
     t = st["t"]
     if t == "nodata":
         import lena.meta
+        if st.get("k") == "store":
+            return lena.meta.StoreContext()
+        if st.get("k") == "set2":
+            return lena.meta.SetContext("d.e", "f")
         return lena.meta.SetContext("s", 1)
+    if t == "hosted":
+        return host(build_stage(st["el"], pairs, use_context_el), st["h"])
     if t == "nslice":
         a, b, s = _n(st["a"]), _n(st["b"]), _n(st["s"])
         if a is None and s == 1:
@@ -390,7 +446,10 @@ def build_stage(st, pairs=True, use_context_el=False):
     if t in ("seqsum", "fcsum", "seqbr"):
         return build_branch(st, pairs, use_context_el)
     if t == "split":
-        return lena.core.Split([build_branch(b, pairs, use_context_el) for b in st["brs"]], bufsize=_n(st["bs"]))
+        if st.get("cb", True):      # the default of copy_buf
+            return lena.core.Split([build_branch(b, pairs, use_context_el) for b in st["brs"]], bufsize=_n(st["bs"]))
+        return lena.core.Split([build_branch(b, pairs, use_context_el) for b in st["brs"]], bufsize=_n(st["bs"]),
+                               copy_buf=False)
     if t == "bad":
         inc, dbl = _map_callable("inc"), _map_callable("dbl")
         make = {"int": lambda: 5, "str": lambda: "abc", "obj": NoRun, "none": lambda: None, "dict": dict,
@@ -498,6 +557,10 @@ def random_stage(rnd, alphabet):
         a, b = rnd.choice([(NONE, -p), (p - 1, -q), (-p, -p - q + 1)])
         return {"t": "nslice", "a": a, "b": b, "s": rnd.randint(1, 3)}
     if k == "splitx":
+        st = random_stage(rnd, ["splitx_"])
+        st["cb"] = rnd.random() < 0.6          # copy_buf
+        return st
+    if k == "splitx_":
         c = rnd.choice(["empty", "none", "big", "seq", "nested", "fc"])
         if c == "empty":
             return {"t": "split", "brs": [], "bs": rnd.randint(1, 3)}
@@ -520,5 +583,8 @@ def random_stage(rnd, alphabet):
             c = rnd.choice(["map", "filter", "sum"])
             brs.append({"t": "map", "f": rnd.choice(["inc", "dbl"])} if c == "map" else
                        {"t": "filter", "p": rnd.choice(["even", "lt2"])} if c == "filter" else {"t": "sum"})
-        return {"t": "split", "brs": brs, "bs": rnd.randint(1, 4)}
+        return {"t": "split", "brs": brs, "bs": rnd.randint(1, 4), "cb": rnd.random() < 0.5}
+    if k == "hosted":
+        el = random_stage(rnd, ["map", "filter", "slice", "count", "sum", "runif"])
+        return {"t": "hosted", "h": rnd.choice(["nt", "ntf", "list", "dict", "eq"]), "el": el}
     return {"t": k}
